@@ -650,13 +650,24 @@ impl<C: Suite> Interp<C> {
                 let pkg = self.pkg(&st["pkg"])?;
                 let pkp = self.pkp(&st["pkp"])?;
                 let shares = self.slots(st.get("shares"), |s, h| s.zs(h))?;
+                let mut structural_same: Option<bool> = None;
                 let r = match st.get("rp") {
                     Some(rp) if !rp.is_null() => {
                         let rp = match self.get(rp)? {
                             Obj::Rp(x) => x.clone(),
                             o => return se(format!("rp is {}", o.ty_name())),
                         };
-                        frost_rerandomized::aggregate_custom(&pkg, &shares, &pkp, Self::mode(st)?, &rp)
+                        let r = frost_rerandomized::aggregate_custom(&pkg, &shares, &pkp, Self::mode(st)?, &rp);
+                        // what plain aggregation says about the same inputs, when it refuses them for their shape
+                        let mode = Self::mode(st)?;
+                        let plain = crate::toy::oracle_unlogged(|| crate::spy::unlogged(|| frost::aggregate_custom(&pkg, &shares, &pkp, mode)));
+                        if let (Err(re), Err(pe)) = (&r, plain) {
+                            let (rn, pn) = (self.err_j(re)["err"].clone(), self.err_j(&pe)["err"].clone());
+                            if matches!(pn.as_str(), Some("IncorrectNumberOfShares") | Some("UnknownIdentifier")) {
+                                structural_same = Some(rn == pn);
+                            }
+                        }
+                        r
                     }
                     _ => frost::aggregate_custom(&pkg, &shares, &pkp, Self::mode(st)?),
                 };
@@ -668,7 +679,13 @@ impl<C: Suite> Interp<C> {
                         self.put(&st["out"], Obj::Sig(sig))?;
                         Ok(res)
                     }
-                    Err(e) => Ok(self.err_j(&e)),
+                    Err(e) => {
+                        let mut v = self.err_j(&e);
+                        if let Some(b) = structural_same {
+                            v["structural_same"] = json!(b);
+                        }
+                        Ok(v)
+                    }
                 }
             }
             "verify" => {
